@@ -15,6 +15,23 @@ gen = hc.gen
 DRIVERS = hc.DRIVERS
 PROFILE = {"mix": 4, "occ": 5, "reject": 1, "inflight": 3, "pad": 1}
 
+# lane level (checks/lanemgr.py, docs/lane-mgr.md): Properties/C06_lanes.v + Gen/LaneCfgGen.v as extra
+# obligations, and the white-box tie of the real job managers with Model/LaneMgr.v after every call
+try:
+    from checks import lanemgr
+except ImportError:
+    lanemgr = None
+if lanemgr:
+    DRIVERS = hc.DRIVERS + lanemgr.DRIVERS
+
+    def gen():
+        return dict(hc.gen(), **lanemgr.gen())
+
+
+def _lanes(rep, tier):
+    if lanemgr:
+        lanemgr.lane_whitebox(rep, tier)
+
 
 def run(tier, replay=None):
-    return c01.run(tier, replay, pid="C06", profile=PROFILE, k=106)
+    return c01.run(tier, replay, pid="C06", profile=PROFILE, k=106, extra=None if replay else _lanes)
